@@ -15,6 +15,7 @@ Record case := mkcase {
   c_data : list Z;               (* ns: when messages were delivered TO this client (data writes) *)
   c_upongs : list Z;             (* ns: unsolicited pongs the client sent (one-way heartbeat) *)
   c_cpings : list Z;             (* ns: pings the client sent *)
+  c_pongs_back : Z;              (* pongs the relay sent in answer to the client's pings *)
   c_cclose : option Z;           (* ns: the client sent a close frame (and kept the TCP connection open) *)
   watch_until : Z;               (* ns: the socket was watched until then *)
   c_last_from : Z;               (* ns: the partner last received a message FROM this client at (0 = never) *)
@@ -61,6 +62,12 @@ Definition timely_ok (c : case) : bool :=
   | _, _ => true
   end.
 
+(* every ping the client sent while the model has the connection open is answered with a pong
+   (two may still be on their way when the observation ends) *)
+Definition pong_ok (c : case) (f_lo : Z) : bool :=
+  let h := watch_until c + late_tol in
+  pongs_owed (start (t_lo c) f_lo) (timeline (t_lo c) c h) <=? c_pongs_back c + 2.
+
 (* nothing is relayed to or from the connection after the model has it closed *)
 Definition relay_ok (c : case) (f_hi : Z) : bool :=
   let h := watch_until c + late_tol in
@@ -85,7 +92,7 @@ Definition case_ok (c : case) : bool :=
   if negb (floor_s (t_lo c) =? floor_s (t_hi c)) then true
   else match ws_accept (t_lo c) tok (c_others c), ws_accept (t_hi c) tok (c_others c) with
        | Refused _, Refused _ => negb (obs_accepted c) && (c_last_from c =? 0) && (c_last_to c =? 0)
-       | Accepted f_lo, Accepted f_hi => obs_accepted c && close_ok c f_lo f_hi && relay_ok c f_hi && timely_ok c
+       | Accepted f_lo, Accepted f_hi => obs_accepted c && close_ok c f_lo f_hi && relay_ok c f_hi && timely_ok c && pong_ok c f_lo
        | _, _ => false
        end.
 
